@@ -9,6 +9,10 @@
    decoder may take: the dictionary the input declares (per worker for the MT readers) plus an amount
    proportional to the input's own length.
 
+   "Every read call" includes the calls AFTER a call that returned Err: the case runner calls each reader twice more
+   (1-byte and full buffer) after the first error; the result class of the case is the worst one seen, so a panic there
+   is a panic of the case (what such a call returns, Ok or Err, is not C06's subject).
+
    A case is [fam, f1 .. f5]; families and their fields:
      xz_index   f1 record count class, f2 its encoding, f3 number of blocks in the stream
      xz_bh      f1 header size class, f2 filter chain, f3 LZMA2 dictionary property, f4 size fields, f5 props size
